@@ -286,11 +286,26 @@ func runCheck(id, tier, repoDir, verifDir string, debug, claim, keep bool) int {
 			}
 			jobs = append(jobs, job{r.VC, ob})
 		}
-		for _, ob := range r.Covers {
-			jobs = append(jobs, job{r.VC, ob})
-		}
 	}
 	w.db.dischargeAll(jobs, cfg)
+	// cover queries run afterwards, without the assumptions of obligations that
+	// were not discharged (a failed obligation must not make later code look vacuous)
+	var cjobs []job
+	for _, r := range results {
+		if r.Err != "" {
+			continue
+		}
+		r.VC.dropFacts = map[int]bool{}
+		for _, ob := range r.VC.obls {
+			if ob.Status != "unsat" && ob.AssumeIdx >= 0 {
+				r.VC.dropFacts[ob.AssumeIdx] = true
+			}
+		}
+		for _, ob := range r.Covers {
+			cjobs = append(cjobs, job{r.VC, ob})
+		}
+	}
+	w.db.dischargeAll(cjobs, cfg)
 
 	// property-specific extra obligations (static / regex / schema)
 	var extraObls []*Obligation
